@@ -74,3 +74,17 @@ pub fn stub_anyhow_from_cut<E>(_e: E) -> anyhow::Error {
     crate::sym::cut()
 }
 
+
+/// E9 / rule 3: the appender builders name `PatternEncoder::default()` as the fallback encoder,
+/// which makes the whole pattern engine a candidate of every `dyn Encode` call.  Harnesses that
+/// install their own encoder cut it.
+pub fn stub_pattern_encode_cut(
+    _e: &log4rs::encode::pattern::PatternEncoder,
+    _w: &mut dyn log4rs::encode::Write,
+    _r: &log::Record,
+) -> anyhow::Result<()> {
+    crate::sym::cut()
+}
+pub fn stub_pattern_new_cut(_p: &str) -> log4rs::encode::pattern::PatternEncoder {
+    crate::sym::cut()
+}
